@@ -197,6 +197,17 @@ def claims (step : Bool → Bool → Bool × Bool) : Bool → List Bool → List
       let rest := claims step r.2 ms
       (r.1 :: rest.1, rest.2)
 
+section keyangles
+variable {K : Type} [Add K] [Sub K] [Mul K] [Div K] [Neg K] [OfNat K 0] [OfNat K 1] [OfNat K 2] [OfNat K 360]
+/-- start angle of keystone `k` of a ring of `nseg` keystones rotated by `rot` degrees: `radians(k·(360/nseg) + rot) − π`
+(`rad` stands for `np.radians`) -/
+def keyAngle (rad : K → K) (pi k nseg rot : K) : K := rad (k * (360 / nseg) + rot) - pi
+/-- angular width of one keystone -/
+def keyArc (rad : K → K) (nseg : K) : K := rad (360 / nseg)
+/-- `rotation_per_ring = None` means one arc -/
+def keyDefaultRot (nseg : K) : K := 360 / nseg
+end keyangles
+
 section keyradii
 variable {K : Type} [Add K]
 /-- ring radii: `inner = previous outer + gap`, `outer = inner + ring width` -/
